@@ -16,7 +16,15 @@ CFG = {
                   "C15_tree_decoders_agree: on every document the tree-level decoders and the sorted-insertion-table decoder that the correspondence check evaluates agree). "
                   "The four defects are proved as _refuted statements about the pre-repair code (D15 unclipped slice, D20 ring encoding, D22 unquoted member names, "
                   "D23 byte-offset order recovery). Model and code are tied on every run: real bytes (json.Valid, parsed), a fresh and a non-empty decode target, "
-                  "representation details through verif accessors, and 3-8 further operations on the restored container judged against a reference inside Coq.",
+                  "representation details through verif accessors, and 3-8 further operations on the restored container judged against a reference inside Coq. "
+                  "app/bcache (Export/Load = Marshal/Unmarshal of the member map, deadlines included) is judged by the C12 development: on every run ~600 round trips "
+                  "(source cache built by random Set/SetDefault/SetNoExpire/SetIfAbsent/Replace/Delete with the C12 TTL and default-expiry alphabets, Export, json.Valid, "
+                  "Load into a FRESH cache, GetWithExpire/Count/Export right away, pauses, sweeps through VerifSweep, further operations) are written as C12 traces "
+                  "whose first step on the fresh cache is the Load of the exported data, and evaluated by C12.Check inside Coq: the restored cache must hold exactly the "
+                  "exported entries not expired at the load, with their deadlines, and obey C12 afterwards (kind 2 otherwise; theorems C12_roundtrip, C12_load, C12_refines, "
+                  "C12_index, C12_admissible_complete = no false alarm from timing); member map and deadline index are compared with the model after every step (kind 1); "
+                  "24 round trips run the restored cache with its real 10 ms sentinel (Count after 10 intervals, no live entry lost). PARTIAL there exactly as C12 is: "
+                  "real clock readings, ticker latency and scheduling are sampled.",
     "level_note": "encoding/json (text <-> value: escaping, number formatting, map-key ordering, slice growth) and banytostring are NOT modelled: they are parameters "
                   "of the model, premises of the theorems (codec laws, permutation laws, grow n >= n) and are recorded from the real library for every case. "
                   "The composition theorems are stated on the other properties' models and inherit their trust: element type int for C07/C08 (the JSON model itself is "
@@ -27,9 +35,16 @@ CFG = {
                   "the per-container abstractions of C15/Model.v (tree-backed containers as sorted-insertion tables - proved to agree with the tree-level decoders on every "
                   "document, C15_tree_decoders_agree, and with the red-black treeset / treebidimap on every operation list, C09_tree_abstract_agrees) and judges the suffix "
                   "operations against the reference containers of C15/Spec.v. Ring buffers are exercised without zero-valued elements (the harness numbers the Go zero "
-                  "value -1). bslice / bmap / bcache Marshal/Unmarshal are one-line delegations to encoding/json and are only exercised (bcache values appear wrapped "
-                  "in its Iterator struct). Strings that are not valid UTF-8 are outside the codec premise (encoding/json replaces the bytes).",
+                  "value -1). bslice / bmap Marshal/Unmarshal are one-line delegations to encoding/json and are only exercised by the first harness run (so is the bcache member map "
+                  "WITHOUT deadlines there, values wrapped in its Iterator struct); bcache with deadlines, the rebuilt expiry index and the behaviour of the restored cache "
+                  "are judged by the second run (c15bc) through C12.Check, whose theorems are C12's (lib/props/C12.py), not repeated in this property's theorem list. Strings that are not valid UTF-8 are outside the codec premise (encoding/json replaces the bytes).",
     "harness": "c15",
+    "runs": [
+        {"harness": "c15"},
+        # app/bcache round trips (Export -> json.Valid -> Load into a fresh cache -> further operations), written as C12-style
+        # traces and judged by C12.Check (own case type and header; shared trace machinery: harness/bcachetrace)
+        {"harness": "c15bc", "name": "c15bc"},
+    ],
     "theorems": [("C15.Props", [
         "C15_linked_lists", "C15_arraylist", "C15_arraylist_usable", "C15_arraylist_unclipped_refuted", "C15_ring", "C15_ring_backing_refuted",
         "C15_sets", "C15_linked_set", "C15_maps", "C15_tree_sorted", "C15_bidi", "C15_linkedmap",
@@ -47,10 +62,14 @@ CFG = {
         "codec's actual outputs per case and Check.v verifies that the recorded tables are injective)",
         "verif accessors VerifLenCap (arraylist), VerifRing (circularbuffer), VerifNewSafe (hashset) - add-only files, build tag verif",
         "the C09 models of hash / linked / bidi containers, which this property reuses",
+        "the C12 model, interval checker and theorems (C12_roundtrip, C12_load, C12_admissible_complete, ...) for the bcache round trips; verif accessors "
+        "VerifSweep / VerifDump of app/bcache",
         "the models and refinement lemmas of C07 (lists), C08 (queues, stacks, heap, ring), C09 and C01 (red-black / AVL / B-tree, treemap, treeset, treebidimap) that the "
         "C15_restored_obeys_* theorems compose with; those models are tied to the code by their own properties' checks",
     ],
-    "modelled": ["sync.Mutex of the Safe* wrappers", "bcache expiry (entries are stored without deadline)",
+    "modelled": ["sync.Mutex of the Safe* wrappers",
+                 "bcache in the first run: entries stored without deadline; in the bcache run: everything C12 models (zset index as a sorted list, float64 score "
+                 "rounding f64r, time.Now as an explicit instant per call, ticker sampled), encoding/json parsed by the harness into the OLoad data",
                  "the iterator walk of the tree MarshalJSON methods (taken to be the in-order enumeration that Keys()/Values() return; iterators are C14)"],
     "assumptions": ["element / key / value types int and string with valid UTF-8", "decode target of the same type; a fresh one for the property, a non-empty one for the model tie"],
     "widen_runs": 1,
